@@ -80,6 +80,7 @@ class Alias:
         s.returns = set()
         s.maybe = []
         s.kinds = {}      # name -> 'array' | 'int'  (coarse type of local names, for basic vs advanced indexing)
+        s.alloc_labels = False   # True: np.empty/zeros/... get an identity ('local:<line>') instead of FRESH
 
     # ---- expression aliasing
     def al(s, e, env):
@@ -187,6 +188,8 @@ class Alias:
             sm = s.resolve(c) if s.resolve else None
             if sm is not None: return s._apply_summary(sm, c, env)
             return {FRESH}
+        if s.alloc_labels and short in ("empty", "zeros", "ones", "full", "empty_like", "zeros_like", "ones_like", "full_like") and name and name.split(".")[0] in ("np", "numpy", "_np"):
+            return {f"local:{c.lineno}"}
         if short in ALIASING_FUNCS and c.args:
             return s.al(c.args[0], env)
         if short in COPY_FALSE_FUNCS and c.args:
